@@ -580,10 +580,10 @@ Proof.
 Qed.
 
 Lemma daily_coverage_table : threshold_table THRESHOLD_BOUND gen_min_fraction_daily_coverage = true.
-Proof. vm_compute. reflexivity. Qed.
+Proof. vm_cast_no_check (eq_refl true). Qed.
 
 Lemma hourly_coverage_table : threshold_table THRESHOLD_BOUND gen_min_fraction_hourly_temperature_coverage = true.
-Proof. vm_compute. reflexivity. Qed.
+Proof. vm_cast_no_check (eq_refl true). Qed.
 
 Lemma threshold_bound_value : Z.of_nat THRESHOLD_BOUND = 1000.
 Proof. vm_compute. reflexivity. Qed.
@@ -824,7 +824,7 @@ Definition ex_rep_partial : frame :=
     (map (fun i => ex_row i (if Nat.ltb i 100 then Some (5 # 1)%Q else None) (negb (Nat.leb 150 i && Nat.ltb i 181))) (seq 0 300)).
 
 Lemma refuted_reporting_partial_usage_l :
-  dq_of (dataclass code_params Daily Reporting true cx0 ex_rep_partial) = [] /\
+  dq_of (dataclass code_params Daily Reporting true cx0 ex_rep_partial) = [MissingMonthlyTemperature] /\
   violates_reporting Daily ex_rep_partial TooManyDaysMissingTemperature.
 Proof.
   split; [vm_compute; reflexivity|].
@@ -851,7 +851,7 @@ Proof. split; [split; [reflexivity|right; left; discriminate]|vm_compute; reflex
 (* 340 days, temperature missing on 34 days: 305 valid whole days of 340 -> under 90 %; on 33 days: 306 -> exactly 90 %, passes *)
 Lemma ex_baseline_threshold :
   dq_of (dataclass code_params Daily Baseline false cx0 (mkframe true false (ex_temp_gap 340 100 34 (Some (5 # 1)%Q))))
-  = [TooManyDaysMissingData; TooManyDaysMissingTemperature; MissingMonthlyTemperature] /\
+  = [TooManyDaysMissingData; TooManyDaysMissingTemperature] /\
   dq_of (dataclass code_params Daily Baseline false cx0 (mkframe true false (ex_temp_gap 340 100 33 (Some (5 # 1)%Q))))
   = [] /\
   whole_days temp_valid90 (ex_temp_gap 340 100 33 (Some (5 # 1)%Q)) = 306.
@@ -892,4 +892,32 @@ Proof.
   repeat (split; [reflexivity|]).
   destruct (Nat.eqb i 7); [split; intros _; reflexivity|].
   destruct (Nat.eqb i 9); split; intro H; vm_compute in H; discriminate H.
+Qed.
+
+(* ------------------------------------------------------------------ the frames of the correspondence *)
+
+(* the expansion of a run-length segment caches the civil month per local day; it is the plain definition *)
+Lemma expand_seg_aux_simple : forall k t step off dend m obs tp cov g a,
+  dend mod 86400 = 0 -> m = month_of_days (dend / 86400 - 1) ->
+  expand_seg_aux k t step off dend m obs tp cov g a = expand_seg_simple k t step off obs tp cov g a.
+Proof.
+  induction k as [|k IH]; intros t step off dend m obs tp cov g a Hd Hm; [reflexivity|].
+  cbn [expand_seg_aux expand_seg_simple]. cbv zeta.
+  destruct ((dend - 86400 <=? t + off) && (t + off <? dend)) eqn:E.
+  - apply andb_true_iff in E. destruct E as [E1 E2]. apply Z.leb_le in E1. apply Z.ltb_lt in E2.
+    assert (Hq : (t + off) / 86400 = dend / 86400 - 1).
+    { pose proof (Z.div_mod dend 86400 ltac:(lia)) as D. rewrite Hd in D.
+      symmetry. apply (Z.div_unique (t + off) 86400 (dend / 86400 - 1) (t + off - 86400 * (dend / 86400 - 1))); lia. }
+    f_equal; [unfold month_of_local; rewrite Hq, Hm; reflexivity|]. apply IH; assumption.
+  - f_equal. apply IH.
+    + apply Z.mod_mul. lia.
+    + rewrite Z.div_mul by lia. f_equal. lia.
+Qed.
+
+Lemma expand_seg_simple_eq : forall t step n off obs tp cov g a,
+  expand_seg (t, step, n, off, obs, tp, cov, g, a) = expand_seg_simple (Z.to_nat n) t step off obs tp cov g a.
+Proof.
+  intros. unfold expand_seg. apply expand_seg_aux_simple.
+  - apply Z.mod_mul. lia.
+  - rewrite Z.div_mul by lia. reflexivity.
 Qed.
